@@ -57,6 +57,33 @@ def scripted_id_reuse(w, origin, victim_hops):
                 w.deliver(w.net.inflight[0].seq)
 
 
+def scripted_race_create(w, order):
+    """the originator's create for a 1-hop circuit is waiting for the exit's admission decision when a third party's create
+    for the same circuit id arrives (the id is in clear in every cell): both pass the guards; whatever the order in which
+    the decisions resume, the entry must end up keyed with the first one joined and the other must be refused"""
+    w.create_circuit("o", 1)
+    d = w.net.inflight[0]
+    w.deliver(d.seq)                       # held in should_join_circuit at x
+    w.adv_create("adv", "x", 1)
+    w.deliver(w.net.inflight[-1].seq)      # held, too
+    held = [(n, w.cid(rc), k) for n, rc, k, _f in w.held_joins]
+    for n, c, k in (held if order == 0 else held[::-1]):
+        w.join_resume(n, c, k)
+    for _ in range(30):
+        if w.net.inflight:
+            w.deliver(w.net.inflight[0].seq)
+        elif w.held_joins:
+            n, rc, k, _f = w.held_joins[0]
+            w.join_resume(n, w.cid(rc), k)
+        else:
+            break
+    for c in list(w.ov["o"].circuits.values()):
+        if c.state == "READY":
+            w.send_data("o", w.cid(c.circuit_id), 1)
+    while w.net.inflight:
+        w.deliver(w.net.inflight[0].seq)
+
+
 def scripted_cross_answer(w, target_pick):
     """circuit A is up; while circuit B is being built through the same relay, a dishonest next hop answers the relay's
     create with a created whose (plaintext) header names another circuit id in use at that relay"""
@@ -134,6 +161,32 @@ def run(tier, seed, replay=None):
         finally:
             w.close()
     K.validate_family(ctx, PID, scr, "line4", hdr3, "id-reuse", NONTRIVIAL)
+    # the same under an application's own, really suspending admission policy (should_join_circuit overridden without
+    # super()): the in-use guard must not depend on the overridable hook; and a third party's create for the id of a
+    # circuit whose own create is still waiting for its admission decision
+    susp = []
+    for goal in ((2,) if tier == "quick" else (1, 2, 3)):
+        w = R.world("line4", seed * 10 + 20 + goal, suspend_join="own")
+        w.auto_resume = True
+        try:
+            gone = K.guarded(w, scripted_id_reuse, w, "o", goal)
+            tr = {"events": w.events, "topology": "line4", "seed": seed, "profile": "id-reuse own-admission g%d" % goal,
+                  "aborted": gone}
+            K.check_escapes(ctx, w, tr, "id-reuse-own-admission")
+            susp.append(tr)
+            hdr5 = w.header()
+        finally:
+            w.close()
+    for order in (0, 1):
+        w = R.world("line4", seed * 10 + 30 + order, suspend_join=True)
+        try:
+            gone = K.guarded(w, scripted_race_create, w, order)
+            tr = {"events": w.events, "topology": "line4", "seed": seed, "profile": "create-race order %d" % order, "aborted": gone}
+            K.check_escapes(ctx, w, tr, "create-race")
+            susp.append(tr)
+        finally:
+            w.close()
+    K.validate_family(ctx, PID, susp, "line4", hdr5, "suspended-admission", NONTRIVIAL | {"JoinResume"}, suspend_join=True)
     cross = []
     for pick in range(4 if tier == "quick" else 8):
         w = R.world("line4", seed * 10 + 50 + pick)
